@@ -56,6 +56,10 @@ def strip_positions(err):
     return re.sub(r"\d+:\d+", "L:C", text)
 
 
+def strip_numbers(msg):
+    return re.sub(r"\d+", "N", msg or "")
+
+
 def layouts_for(rng, k, systematic_token=None):
     lays = []
     for _ in range(k):
@@ -198,7 +202,14 @@ def work(arg):
                     if strip_positions(oa.err) != strip_positions(ob.err):
                         viol("message", "diagnostic text differs between layouts", rb.text, {"canonical_layout": ra.text, "a": oa.err.decode("utf-8", "replace"), "b": ob.err.decode("utf-8", "replace")})
                 elif mapped != ob.err.decode("utf-8", "replace"):
-                    if strip_positions(oa.err) != strip_positions(ob.err):
+                    da, db = judge.Diag(oa.err), judge.Diag(ob.err)
+                    located_ok = (da.ok and db.ok and map_pos(da.pos, ra, rb) == db.pos and
+                                  [map_pos(p, ra, rb) for p, _ in da.stack] == [p for p, _ in db.stack] and
+                                  [c for _, c in da.stack] == [c for _, c in db.stack] and da.func == db.func)
+                    if located_ok and strip_numbers(da.msg) == strip_numbers(db.msg):
+                        # header and stack trace moved correctly; the message cites a position in a format we do not parse
+                        tally("message_numbers_not_mapped")
+                    elif strip_positions(oa.err) != strip_positions(ob.err):
                         viol("message", "diagnostic text differs between layouts", rb.text, {"canonical_layout": ra.text, "a": oa.err.decode("utf-8", "replace"), "b": ob.err.decode("utf-8", "replace")})
                     else:
                         viol("positions/moved", "a reported position did not move with its token: expected %r, got %r" % (mapped[:200], ob.err.decode("utf-8", "replace")[:200]),
@@ -296,8 +307,11 @@ def newline_work(arg):
         res["runs"] += 2
         if oa.timeout or ob.timeout:
             continue
-        if oa.crashed or ob.crashed:
-            res["viol"].append(("crash", "crash", {"src": a if oa.crashed else b, "oracle": "newline == ;"}))
+        # (these texts are arbitrary edits of valid programs, not filtered by the model: a program that
+        #  builds and prints a cyclic value aborts in both spellings alike - outside every quantifier.
+        #  Only a difference between the two spellings matters here.)
+        if oa.crashed and ob.crashed:
+            res["tally"]["both-spellings-abort-alike"] = res["tally"].get("both-spellings-abort-alike", 0) + 1
         elif (oa.code, oa.out, strip_positions(oa.err)) != (ob.code, ob.out, strip_positions(ob.err)):
             res["viol"].append(("newline/terminator-behaviour/" + kind, "a line break after %s behaves differently from `;` there" % kind,
                                 {"src": a, "oracle": "newline == ;", "with_semicolon": b}))
